@@ -78,10 +78,17 @@ theorem vStep_trans {s s' : VSt} {e : Ev} (h : vStep s e = .ok s') : VTrans s s'
               · cases h; exact .eff e.tid _ _ rfl rfl
               · cases h; exact .frame rfl rfl
             · split at h
-              · rw [guard_ok] at h; obtain ⟨_, h⟩ := h
+              · -- reset: emptiness pre-check under the read lock
                 rw [guard_ok] at h; obtain ⟨_, h⟩ := h
-                cases h; exact .eff e.tid _ _ rfl rfl
-              · cases h
+                rw [guard_ok] at h; obtain ⟨_, h⟩ := h
+                split at h
+                · cases h; exact .eff e.tid _ _ rfl rfl
+                · cases h; exact .frame rfl rfl
+              · split at h
+                · rw [guard_ok] at h; obtain ⟨_, h⟩ := h
+                  rw [guard_ok] at h; obtain ⟨_, h⟩ := h
+                  cases h; exact .eff e.tid _ _ rfl rfl
+                · cases h
       · -- rheld
         rw [guard_ok] at h; obtain ⟨_, h⟩ := h
         split at h
@@ -192,5 +199,13 @@ theorem apply_specInv (s : VSpec) (op : VOp) (hi : SpecInv s) : SpecInv (s.apply
   | keys => exact ⟨h1, h2⟩
   | inc c => exact ⟨h1, by simpa [VSpec.apply] using h2⟩
   | read c => exact ⟨h1, h2⟩
+
+/-- resetting a vector that has no children changes nothing (and returns the usual unit result): this
+    is why a `reset` may commit under the READ lock when it sees an empty map -/
+theorem reset_empty (s : VSpec) (h : s.map.isEmpty = true) : s.apply .reset = (s, .unit) := by
+  obtain ⟨m, v⟩ := s
+  simp only [List.isEmpty_iff] at h
+  subst h
+  rfl
 
 end Prom.C10
